@@ -257,6 +257,18 @@ class Program:
         if self.cfg.get('boom'):
             opts.media_handlers[BOOM_TYPE] = BoomHandler(self.ctl)
             self.custom_types.add(BOOM_TYPE)
+        # the stock response handlers for forms can be dropped (in place, or by installing a new Handlers object),
+        # down to a JSON-only or even an empty handler set
+        mode = self.cfg.get('handlers_mode', 'stock')
+        self.form_types = [M.URLENC, M.MULTIPART]
+        if mode != 'stock':
+            self.form_types = []
+            keep = {k: v for k, v in opts.media_handlers.items() if k not in (M.URLENC, M.MULTIPART)}
+            if mode == 'replaced' and keep:
+                opts.media_handlers = falcon.media.Handlers(keep)
+            else:
+                del opts.media_handlers[M.URLENC]
+                del opts.media_handlers[M.MULTIPART]
         self.registry = M.Registry({Exception: 'D:py', falcon.HTTPError: 'D:he', falcon.HTTPStatus: 'D:hs'})
 
     # ---- spec -> objects
@@ -386,7 +398,7 @@ class Program:
         c = [M.JSON]
         if self.cfg.get('xml', True):
             c += list(M.XML_TYPES)
-        for t in [M.URLENC, M.MULTIPART] + sorted(self.custom_types):
+        for t in self.form_types + sorted(self.custom_types):
             if t not in c:
                 c.append(t)
         return c
@@ -866,6 +878,8 @@ class Checker:
                     allowed.discard('application/xml')
                     allowed.add('empty')
         rec.count('negotiation.strong' if allowed is not None else 'negotiation.weak')
+        rec.count('cfg.single_candidate' if len(cands) == 1 else 'cfg.few_candidates' if len(cands) < 5
+                  else 'cfg.stock_or_more_candidates')
         if allowed is not None and accept is not None and accept != accept.lower():
             rec.count('negotiation.mixed_case_decided')
         observed = 'empty' if body == b'' else ctype
@@ -1284,7 +1298,8 @@ def rand_accept(rng):
 def rand_cfg(rng, boom=False):
     return {'xml': rng.random() < 0.7, 'custom_media': rng.random() < 0.5,
             'json_handler': rng.choice(['default', 'default', 'custom', 'removed']),
-            'xml_handler': rng.random() < 0.2, 'independent': rng.random() < 0.6, 'boom': boom}
+            'xml_handler': rng.random() < 0.2, 'independent': rng.random() < 0.6, 'boom': boom,
+            'handlers_mode': rng.choice(['stock', 'stock', 'forms_deleted', 'replaced'])}
 
 
 ROOT_CHOICES = ['Exception', 'Exception', 'HTTPError', 'HTTPNotFound', 'HTTPStatus', 'ValueError', 'LookupError',
@@ -1624,9 +1639,9 @@ E3_ACCEPTS = [
     'application/*;q=0.9, application/json;q=0.1', 'multipart/form-data;q=0.9, application/json',
 ] + MIXED_CASE_SUFFIX + WEAK_ACCEPTS
 
-E3_CFGS = [{'xml': x, 'custom_media': c, 'json_handler': j, 'xml_handler': h, 'independent': True}
+E3_CFGS = [{'xml': x, 'custom_media': c, 'json_handler': j, 'xml_handler': h, 'independent': True, 'handlers_mode': m}
            for x in (True, False) for c in (False, True) for j in ('default', 'custom', 'removed')
-           for h in (False, True)]
+           for h in (False, True) for m in ('stock', 'forms_deleted', 'replaced')]
 E3_ERR = dict(E2_FULL, cls='HTTPConflict')
 
 E4_ACCEPTS = ['application/json', 'text/xml', CUSTOM_TYPE]
@@ -1742,6 +1757,14 @@ def run(rec):
             base = dict(base, steps=list(E2_REGS) + E2B_REGS)
             chunked_program(rec, base, mine)
             rec.count('e2.requests', len(mine))
+    # ---- E2c: the same sites/kinds/body states on a strict JSON-only API (XML off, no form handlers)
+    for stack in ('wsgi', 'asgi'):
+        mine = [r for r in e2 if not any(p_[0] == 'render' for p_ in r.get('plan') or [])
+                and (idx := idx + 1) % n == me]   # noqa
+        base = {'stack': stack, 'cfg': {'independent': True, 'xml': False, 'handlers_mode': 'forms_deleted'},
+                'classes': E2_CLASSES, 'handlers': E2_HANDLERS, 'steps': list(E2_REGS)}
+        chunked_program(rec, base, mine)
+        rec.count('e2.requests', len(mine))
     # ---- E3: Accept decision table x configuration
     for cfg in E3_CFGS:
         for stack in ('wsgi', 'asgi'):
@@ -1805,6 +1828,7 @@ def run(rec):
         'chain.handler_wrote_before_raise': 600, 'chain.wrote_text_then_raise_status': 150,
         'chain.wrote_text_bytes_then_raise_status': 90, 'chain.wrote_data_then_raise_status': 150,
         'chain.wrote_media_then_raise_status': 150, 'chain.wrote_text_then_raise_http': 40,
+        'cfg.single_candidate': 800, 'cfg.few_candidates': 1500, 'cfg.stock_or_more_candidates': 4000,
         'vary.error_defines_members': 500, 'vary.set_before_raise': 550, 'negotiation.mixed_case_decided': 300,
     }
     for s_ in SITES_REQ + SITES_MID + ['sink'] + SITES_RESP:
